@@ -123,6 +123,12 @@ def _lenient(prog, pid):
 def row(prog, rep, pid, minimum=1):
     """The '<pid>.stateless' obligations of one property."""
     rule = f"{pid}.stateless"
+    try:
+        rep.explanation = (rep.explanation or "") + (f" {rule}: the functions this property quantifies over keep no state between calls - evaluation methods write no "
+                                                       "attribute of their object and mutate nothing it holds, no argument and no module-level object (transitively, effect "
+                                                       "summaries of vstat/effects.py); contour computations may store their own results but mutate neither model nor arguments.")
+    except Exception:
+        pass
     st = _strict(prog, pid)
     le = [f for f in _lenient(prog, pid) if f.qualname not in {g.qualname for g in st}]
     if st:
